@@ -210,6 +210,9 @@ def space_list(thorough, seed):
         (2, 1, 3, [{0: [[1, 1]]}]), (2, 1, 2, [{0: [[0, 0], [1, 1]]}]),
         # level-1 region {x > 1/2}, level-2 region touching its interior edge (coarse functions that meet level 2 only on refined cells)
         (1, 2, 4, [{0: [[2], [3]]}, {1: [[4], [5]]}]), (2, 1, 2, [{0: [[0, 1], [1, 1]]}, {1: [[0, 2], [1, 2], [2, 2], [3, 2]]}]),
+        # isolated refinements: the intermediate level has active cells but NO active function (a gap in the chain of interacting levels)
+        (1, 2, 5, [{0: [[2]]}, {1: [[4], [5]]}]), (1, 3, 6, [{0: [[2], [3]]}, {1: [[5], [6]]}]), (2, 2, 3, [{0: [[1, 1]]}, {1: [[2, 2], [2, 3], [3, 2], [3, 3]]}]),
+        (1, 2, 5, [{0: [[2]]}, {1: [[4], [5]]}, {2: [[9], [10]]}]),
     ]
     for dim, p, n, hist in fixed:
         for trunc in (False, True):
